@@ -534,6 +534,10 @@ func c16Handwritten(c *runner.Ctx, idx uint64) {
 			[]string{"Label", "Tag", "Cnt", "Other", "K", "Inner", "HFuncs", "HTagged2"}},
 		{"*HShadow (pointer)", &hs, []probe{{"Label()", 1}, {"Other()", 1}, {"Tag()", 1}, {"Label() + \"!\"", 1}, {"Inner.Label() + \"!\"", 1}, {"HFuncs.Label() + 1", 1}, {"Tag() + 1", 1}, {"HTagged2.Tag() + \"!\"", 1}},
 			[]string{"Label", "Tag", "Cnt", "Other", "K", "Inner", "HFuncs", "HTagged2"}},
+		// the value form once more, after the pointer form has been compiled in
+		// this process (what was compiled before must not widen what is accepted)
+		{"HEnv (value, after *HEnv)", he, []probe{{"A", 1}, {"ValM(1)", 1}, {"PtrM()", -1}, {"InnerPM()", -1}, {"Val.InnerPM()", -1}, {"InnerM()", 1}},
+			[]string{"A", "IV", "HInner", "Fn", "Obj", "ValM", "InnerM", "PtrM", "InnerPM", "unexpM", "Val", "PVal", "XXX_Size", "FnObj", "IntKeys", "NamedKey", "FnMap", "AnyFn", "NamedVar", "RetErr", "Strs"}},
 		{"map[string]interface{}", map[string]interface{}{"a": 1, "s": "x", "f": func(i int) int { return i }, "obj": &HEnvObj{N: 2}, "n": nil},
 			[]probe{{"a", 1}, {"s", 1}, {"f(1)", 1}, {"obj.N", 1}, {"obj.Get()", 1}, {"missing", 0}, {"A", 0}, {"n", -1}}, []string{"a", "s", "f", "obj", "n"}},
 		{"Vars (named map[string]interface{})", Vars{"cnt": 3, "label": "x"}, []probe{{"cnt", 1}, {"label", 1}, {"cnt + 1", 1}, {"missing", 0}}, []string{"cnt", "label"}},
